@@ -197,6 +197,12 @@ def run(ctx):
     c02.rule_r4(facts, ctx, rule_id="C12.R1b")
     c19.rule_work(fam, ctx, only={"C12.R2"})
     c19.rule_work(facts, ctx, only={"C12.R2"})
+    if ctx.tier == "thorough" and ctx.override is None:
+        sfx = ctx.suffix
+        ctx.suffix = "@big"
+        c19.rule_work(ctx.facts("family_big"), ctx, only={"C12.R2"})
+        ctx.suffix = sfx
+        ctx.explain("THOROUGH: additionally the big generated family (arities up to 5 x 5, field-order variants).")
     rule_r3(facts, ctx)
     rule_r4(facts, ctx)
     ctx.floor("C12.R4", 4, "hand-written tag forwarders: Skip, Delay, FirFilter, Hilbert (+ others found)")
